@@ -72,13 +72,18 @@ static int do_point_col(ezc3d::c3d& c, int dFrames, int names, bool empty) {   /
   std::vector<std::string> nm;
   if (names == 0) nm.push_back("newp");
   else if (names == 1) nm.push_back(pl.size() ? pl[0] : std::string("newp"));
-  else { nm.push_back("newp"); nm.push_back(pl.size() ? pl[0] : std::string("newq")); }
+  else if (names == 2) { nm.push_back("newp"); nm.push_back(pl.size() ? pl[0] : std::string("newq")); }
+  else { nm.push_back("newp"); nm.push_back("newq"); }
   for (long f = 0; f < n; ++f) {
     Frame fr; Points pts;
     for (size_t k = 0; k < nm.size(); ++k) { Point p; p.name(nm[k]); p.x(__vp_sym_f32("cx")); p.y(__vp_sym_f32("cy")); p.z(__vp_sym_f32("cz")); p.residual(__vp_sym_f32("cr")); pts.point(p); }
     fr.add(pts); v.push_back(fr);
   }
+  if (names == 3 && v.size()) {   // ragged: the last frame lacks the second new point
+    Points pts; pts.point(v.back().points().point(0)); v.back().add(pts);
+  }
   bool exists = false; for (size_t k = 0; k < nm.size(); ++k) for (size_t i = 0; i < pl.size(); ++i) if (nm[k] == pl[i]) exists = true;
+  __vp_obs_u64("arg.ragged", names == 3 && v.size());
   __vp_obs_u64("call.kind", 1); __vp_obs_u64("arg.nbFrames", v.size()); __vp_obs_u64("arg.nbNames", v.size() ? nm.size() : 0); __vp_obs_u64("arg.nameExists", exists);
   try { c.point(v); } catch (...) { return classify(); }
   return 0;
@@ -90,13 +95,18 @@ static int do_channel_col(ezc3d::c3d& c, int dFrames, int dSub, int names, bool 
   std::vector<std::string> nm;
   if (names == 0) nm.push_back("newa");
   else if (names == 1) nm.push_back(al.size() ? al[0] : std::string("newa"));
-  else { nm.push_back("newa"); nm.push_back(al.size() ? al[0] : std::string("newb")); }
+  else if (names == 2) { nm.push_back("newa"); nm.push_back(al.size() ? al[0] : std::string("newb")); }
+  else { nm.push_back("newa"); nm.push_back("newb"); }
   for (long f = 0; f < n; ++f) {
     Frame fr; Analogs ana;
     for (long s = 0; s < ns; ++s) { SubFrame sf; for (size_t k = 0; k < nm.size(); ++k) { Channel ch; ch.name(nm[k]); ch.data(__vp_sym_f32("ca")); sf.channel(ch); } ana.subframe(sf); }
     fr.add(ana); v.push_back(fr);
   }
+  if (names == 3 && v.size() && ns > 0) {   // ragged: the last sub-frame of the last frame lacks the second new channel
+    SubFrame sf; sf.channel(v.back().analogs().subframe(ns - 1).channel(0)); v.back().analogs_nonConst().subframe(sf, ns - 1);
+  }
   bool exists = false; for (size_t k = 0; k < nm.size(); ++k) for (size_t i = 0; i < al.size(); ++i) if (nm[k] == al[i]) exists = true;
+  __vp_obs_u64("arg.ragged", names == 3 && v.size() && ns > 0);
   __vp_obs_u64("call.kind", 2); __vp_obs_u64("arg.nbFrames", v.size()); __vp_obs_u64("arg.nbSubframes", v.size() ? ns : 0); __vp_obs_u64("arg.nbNames", (v.size() && ns) ? nm.size() : 0); __vp_obs_u64("arg.nameExists", exists);
   try { c.analog(v); } catch (...) { return classify(); }
   return 0;
@@ -136,7 +146,7 @@ static int do_declare(ezc3d::c3d& c, bool point, int variant) {   // 0 fresh, 1 
   return 0;
 }
 
-enum { NOPS = 44 };
+enum { NOPS = 47 };
 static int apply(ezc3d::c3d*& c, unsigned op) {
   Dev d;
   switch (op) {
@@ -183,6 +193,9 @@ static int apply(ezc3d::c3d*& c, unsigned op) {
     case 40: return do_declare(*c, true, 0);
     case 41: return do_declare(*c, true, 1);
     case 42: return do_declare(*c, false, 0);
+    case 44: return do_point_col(*c, 0, 3, false);
+    case 45: return do_channel_col(*c, 0, 0, 3, false);
+    case 46: return do_rate(*c, "ANALOG", 300.f);
     case 43: {   // save and reload
       __vp_obs_u64("call.kind", 8);
       try { c->write("hist.c3d"); ezc3d::c3d* n = new ezc3d::c3d("hist.c3d"); delete c; c = n; } catch (...) { return classify(); }
@@ -225,5 +238,30 @@ extern "C" int h_hist() {
   }
   delete c;
   __vp_reached("hist.end");
+  return 0;
+}
+
+// C05 kernel: the sub-frame ratio with FREE rates.  ANALOG:RATE is set `steps` times to free finite floats (POINT:RATE
+// free once); after every call the header's analog view must agree with ANALOG:USED.
+extern "C" int h_rates() {
+  const int n = __vp_cfg("channels"), steps = __vp_cfg("steps");
+  ezc3d::c3d c;
+  float pr = __vp_sym_f32("prate");
+  __vp_assume(pr >= 1.f && pr <= 2000.f);
+  set_rate(c, "POINT", pr);
+  for (int i = 0; i < n; ++i) c.analog(num("a", i));
+  for (int k = 0; k < steps; ++k) {
+    float r = __vp_sym_f32("arate");
+    __vp_assume(r >= 0.f && r <= 20000.f);
+    set_rate(c, "ANALOG", r);
+    __vp_tag("after");
+    __vp_obs_u64("hdr.nbAnalogs", c.header().nbAnalogs());
+    __vp_obs_u64("hdr.nbAnalogsMeasurement", c.header().nbAnalogsMeasurement());
+    __vp_obs_u64("hdr.nbAnalogByFrame", c.header().nbAnalogByFrame());
+    __vp_obs_u64("ANALOG:USED", (unsigned long)c.parameters().group("ANALOG").parameter("USED").valuesAsInt()[0]);
+    __vp_obs_f32("hdr.frameRate", c.header().frameRate());
+    __vp_obs_f32("POINT:RATE", c.parameters().group("POINT").parameter("RATE").valuesAsFloat()[0]);
+  }
+  __vp_reached("rates.end");
   return 0;
 }
